@@ -120,8 +120,8 @@ for p in ('C02', 'C03', 'C06', 'C12', 'C15'):
 
 # directive prologues: up to 2 leading string-literal statements (symbolic text and quote style) in the program and in a function body,
 # followed by an instrumented statement
-DIRECTIVES_Q = dict(scenario='program', args=dict(policy=stmt_profile([['Decl:Fn', 'Block'], ['Return', 'Expr']], [['Bin', 'Ident'], ['Ident', 'Call'], ['Ident']], bin_ops=['Add'], names=['a'], strs=['use strict', 'use asm'], quotes=["'", '"'], directives=2, items=(1, 2, 3), fn_body_lens=(1, 2, 3), block_lens=(1,), params=(0,), op_budget=2, all_present=True), kinds=('Script', 'Module')),
-                    label='program with 0-2 leading directives + {block | function with 0-2 leading directives}, directive text in {use strict,use asm} x quote style symbolic, script and module')
+DIRECTIVES_Q = dict(scenario='program', args=dict(policy=stmt_profile([['Decl:Fn', 'Block'], ['Return', 'Expr']], [['Bin', 'Ident'], ['Ident', 'Call'], ['Ident']], bin_ops=['Add'], names=['a'], strs=['use strict', 'use asm', 'worklet'], quotes=["'", '"'], directives=2, items=(1, 2, 3), fn_body_lens=(1, 2, 3), block_lens=(1,), params=(0,), op_budget=2, all_present=True), kinds=('Script', 'Module')),
+                    label='program with 0-2 leading directives + {block | function with 0-2 leading directives}, directive text in {use strict, use asm, worklet} x quote style symbolic, script and module')
 PLANS['C07'] = {'quick': [DIRECTIVES_Q, PLACEMENT_Q], 'thorough': [DIRECTIVES_Q, PLACEMENT_Q, PLACEMENT_T]}
 
 # scope of temporaries: effectful operands (so that temporaries are needed) in parameter defaults, class members, closures
@@ -239,7 +239,7 @@ PLANS['C01'] = {'quick': [ALL_D2, OPERANDS_Q, SHORTCIRCUIT_Q, PROTO_Q], 'thoroug
 
 
 # optional chains
-OPTCHAIN_Q = dict(scenario='block_expr', args=dict(policy=expr_profile([['OptChain'], ['OptChain', 'Ident', 'Call'], ['OptChain', 'Ident'], ['Ident']], max_args=(0, 1, 0, 0), props=['substring', 'foo'], names=['a'], op_budget=4),
+OPTCHAIN_Q = dict(scenario='block_expr', args=dict(policy=expr_profile([['OptChain'], ['OptChain', 'Ident', 'Call', 'Member'], ['OptChain', 'Ident', 'Member'], ['Ident']], max_args=(0, 1, 0, 0), props=['substring', 'foo', 'prototype'], names=['a'], op_budget=4),
                                                    config=[dict(src='plusOperator', dst=None, operator=True, awc=False), dict(src='substring', dst='stringSubstring', operator=False, awc=False)]),
                   label='optional chains of up to 3 links (member / call links, `optional` flags symbolic), method names in {substring (configured), foo}, <= 4 non-leaf nodes')
 for p in ('C01', 'C02', 'C03', 'C06', 'C12', 'C13', 'C15'):
@@ -337,3 +337,23 @@ PLANS['C04']['thorough'] = PLANS['C04']['thorough'] + [PROTO_T]
 
 PLANS['C04']['quick'] = PLANS['C04']['quick'] + [OPTCHAIN_Q]
 PLANS['C04']['thorough'] = PLANS['C04']['thorough'] + [OPTCHAIN_Q]
+PLANS['C04']['quick'] = PLANS['C04']['quick'] + [FLAGS_Q]
+PLANS['C04']['thorough'] = PLANS['C04']['thorough'] + [FLAGS_Q]
+
+
+# un-instrumented sums (plus operator possibly off) whose operands are instrumented calls, as operands of method calls / templates
+NESTED_FLAGS_Q = dict(scenario='block_expr', args=dict(policy=expr_profile([['Call', 'Tpl'], ['Bin', 'Ident', 'Member'], ['Lit', 'Call', 'Ident'], ['Ident', 'Member'], ['Ident']], max_args=(1, 1, 0, 0, 0), op_budget=5, names=['a'], props=['substring', 'trim'], strs=['s'], bin_ops=['Add', 'Sub'], spread=False),
+                                                      config=[dict(src='plusOperator', dst=None, operator=None, awc=False), dict(src='tplOperator', dst=None, operator=True, awc=False), dict(src='substring', dst='stringSubstring', operator=False, awc=False), dict(src='trim', dst='stringTrim', operator=False, awc=False)]),
+                      label='method calls / templates whose argument is a (possibly un-instrumented) sum of literals and instrumented method calls; plus operator flag symbolic')
+for p in ('C01', 'C02', 'C03', 'C15'):
+    PLANS[p]['quick'] = PLANS[p]['quick'] + [NESTED_FLAGS_Q]
+    PLANS[p]['thorough'] = PLANS[p]['thorough'] + [NESTED_FLAGS_Q]
+
+
+# arrows / closures under every operator configuration (operators individually on or off, one method configured)
+ARROW_FLAGS_Q = dict(scenario='block_expr', args=dict(policy=expr_profile([['Arrow', 'Call', 'Bin'], ['Arrow', 'Call', 'Bin', 'Ident', 'Tpl'], ['Ident', 'Call', 'Member'], ['Ident']], max_args=(1, 1, 0, 0), names=['a'], props=['substring'], bin_ops=['Add'], spread=False, op_budget=3),
+                                                     config=[dict(src='plusOperator', dst=None, operator=None, awc=False), dict(src='tplOperator', dst=None, operator=None, awc=False), dict(src='substring', dst='stringSubstring', operator=False, awc=False)]),
+                     label='expression- and block-bodied arrows (nested, as arguments and operands) whose bodies hold operations needing temporaries; plus/template operator flags symbolic, one configured method')
+for p in ('C06', 'C02', 'C01', 'C12'):
+    PLANS[p]['quick'] = PLANS[p]['quick'] + [ARROW_FLAGS_Q]
+    PLANS[p]['thorough'] = PLANS[p]['thorough'] + [ARROW_FLAGS_Q]
